@@ -102,6 +102,7 @@ func runCase(phase string, i int) worker.Result {
 	o.AbsentSubjects = false
 	var f filterSpec
 	depth := []int{0, 0, 0, 1, 2, 3}[rng.IntN(6)]
+	choicesNoMeta := []string{"sbom", "sig", "example", "config", "artifact"}
 	fsel := rng.IntN(5)
 	if remote && rng.IntN(2) == 0 {
 		fsel = 2 // annotation filters over (possibly paged) referrers listings
@@ -112,6 +113,9 @@ func runCase(phase string, i int) worker.Result {
 		o.Docker = false
 		choices := []string{"^application/vnd\\.test\\.sig$", "sbom", "^application/vnd\\.oci\\.image\\.config", "vnd\\.test\\.config", "nomatch-zzz", "^application/vnd\\.example\\+type$", "artifact$", "^$", "."}
 		f.Regex = choices[rng.IntN(len(choices))]
+		if remote && rng.IntN(2) == 0 {
+			f.Regex = choicesNoMeta[rng.IntN(len(choicesNoMeta))] // plain words: substring matches
+		}
 	case 2:
 		f.Kind = "annotation"
 		o.Docker = false
@@ -152,7 +156,12 @@ func runCase(phase string, i int) worker.Result {
 	// ExtendedCopy after an ancestor was copied), and - for registry sources - one
 	// referrers request answered 404 in the middle of the walk
 	prepopulate := rng.IntN(4) == 0
-	faultReferrers := remote && rng.IntN(5) == 0
+	// a fresh Repository object has not detected the referrers capability yet
+	freshRepo := remote && rng.IntN(3) != 0
+	// The injected 404 is only meaningful once the capability is known: while it is unknown the
+	// client legitimately reads a 404 as "Referrers API unsupported" and falls back to the tag
+	// schema (a registry that answers 200 and then 404 for the same API does not follow the spec).
+	faultReferrers := remote && !freshRepo && rng.IntN(3) == 0
 
 	// ---- expected closure on generator truth
 	type item struct{ n, d int }
@@ -286,7 +295,7 @@ func runCase(phase string, i int) worker.Result {
 		}
 	}
 	srcTarget = sh.Target
-	if remote && rng.IntN(3) != 0 {
+	if freshRepo {
 		// a fresh Repository object: the referrers capability has not been detected yet
 		fresh, err := stores.RepoFor(sh.Server, "test/repo")
 		if err != nil {
